@@ -4,4 +4,5 @@ PROPERTY Pure
 CONSTANTS
   NProc = 2
   AllowWrite = FALSE
+  AllowAlias = FALSE
   MaxCalls = 2
